@@ -287,8 +287,10 @@ class STV(RankingElection):
 
         # catches the possibility that we exhaust all ballots
         # without candidates reaching threshold
+        # (seats filled up to the previous round, so that replaying a round via
+        # get_profile sees the same count as the original run did)
         elif len(profile.candidates) == self.m - len(
-            [c for s in self.get_elected() for c in s]
+            [c for s in self.get_elected(prev_state.round_number) for c in s]
         ):
             elected = prev_state.remaining
             eliminated = (frozenset(),)
